@@ -28,6 +28,7 @@ FORK_SITES = {} if _os.environ.get("SYMX_TRACE_FORKS") else None
 BRANCH_TIMEOUT_MS = 2000
 CHECK_TIMEOUT_MS = 20000
 NLSAT_TIMEOUT_MS = 120000
+EXP_ROUNDS = __builtins__["int"](_os.environ.get("SYMX_EXP_ROUNDS", "6")) if isinstance(__builtins__, dict) else __builtins__.int(_os.environ.get("SYMX_EXP_ROUNDS", "6"))
 
 
 class Abort(BaseException):
@@ -384,7 +385,7 @@ class Ctx:
         except z3.Z3Exception:
             return m
 
-    def _refine_exp(self, neg, rounds=6):
+    def _refine_exp(self, neg, rounds=EXP_ROUNDS):
         """returns (unsat, []) | (sat, pin-constraints of a model with real exp values) | (sat, []) when undecided"""
         for _ in range(rounds):
             m = self.solver.model()
